@@ -13,6 +13,9 @@ import (
 
 const ModulePath = "github.com/brewlin/net-protocol"
 
+// BuildTags (comma separated) are passed to the package loader; set from the spec ("tags").
+var BuildTags string
+
 // Engine holds the SSA program of /repo plus harness overlays.
 type Engine struct {
 	Prog     *ssa.Program
@@ -75,6 +78,9 @@ func Load(repoDir, harnessDir string, relPkgs []string) (*Engine, error) {
 		Overlay: e.Overlay,
 		Env:     append(os.Environ(), "GOFLAGS=-mod=mod", "GOPROXY=off", "GOSUMDB=off", "GOTOOLCHAIN=local", "CGO_ENABLED=0"),
 		Tests:   false,
+	}
+	if BuildTags != "" {
+		cfg.BuildFlags = []string{"-tags=" + BuildTags}
 	}
 	var pats []string
 	for _, r := range relPkgs {
